@@ -221,7 +221,7 @@ def run(ctx):
     # the lock file is never unlinked (a deleted lock file lets a second opener lock a fresh one)
     lib.callers_confined(ctx, '3h remove_file-callers', F, ['std::fs::remove_file', 'std::fs::rename'],
                          {'log::Log::open', 'log::Log::drop_log', 'column::Column::drop_files', 'file::TableFile::remove', 'index::IndexTable::drop_file',
-                          'ref_count::RefCountTable::drop_file', 'migration::deplace_column',
+                          'ref_count::RefCountTable::drop_file', shared.column_file_mover(F),
                           'options::Options::write_metadata_file_with_version'},
                          'files are unlinked/renamed only by the known log, table, index, ref-count, migration and metadata sites - none of which can name the lock file', required=['log::Log::drop_log'])
     # a directory removal takes the `lock` file inside it along: a handle alive on that directory loses its lock (a second open then
